@@ -240,6 +240,13 @@ class Folder:
         if isinstance(fn, ast.Attribute) and fn.attr in ('any', 'all') and isinstance(fn.value, ast.Name) and fn.value.id in ('np', 'numpy') \
                 and len(args) == 1 and not kwargs and isinstance(args[0], _BList):
             return any(args[0]) if fn.attr == 'any' else all(args[0])
+        if isinstance(fn, ast.Attribute) and isinstance(fn.value, ast.Name) and fn.value.id == 'operator' and fn.value.id not in env and \
+                fn.attr in ('gt', 'lt', 'ge', 'le', 'eq', 'ne') and len(args) == 2 and not kwargs:
+            import operator as _op
+            try:
+                return getattr(_op, fn.attr)(args[0], args[1])
+            except Exception as ex:     # noqa
+                raise CannotFold('operator.%s: %s' % (fn.attr, ex))
         if isinstance(fn, ast.Name) and fn.id == 'Counter' and fn.id not in env and len(args) == 1 and not kwargs:
             try:
                 return _counter(args[0])
